@@ -10,7 +10,7 @@ from .c16 import E, Par, gen_world, build_world
 ID = "C17"
 LEVEL = "exploration"
 RULE = ("random parent domains as in C16 (inner lists of length 0-4, overlapping, repeated elements, all lists empty in some "
-        "cases, scalar attribute in some) x variant {the single row | in_ | contains | not_(in_) | not_(contains)} of an "
+        "cases, scalar attribute in some) x variant {the single row | in_ | contains | not_(in_) | not_(contains) | or_(in_, cond) | not_(and_(cond, in_)) | and_(cond, in_)}; a fifth of the cases concatenate two levels (concatenate(flatten(p.items).subs)) with inner objects shared between parents; of an "
         "outer variable over the 5 element objects in a permuted order; caching on/off; every query is evaluated twice and a fresh concatenate over the same objects once more (the value must not drift, the user's lists must stay as they were). Non-trivial: the concatenation has "
         ">= 2 elements from >= 2 parents and, for membership variants, the answer is neither empty nor all. distinct by hash.")
 LEVEL_TEXT = ("Reference-model monitoring: the one-row result is compared element by element (identity, order, multiplicity) "
@@ -27,7 +27,8 @@ def plan(tier, seed):
 
 def floors(tier):
     return {"distinct_nontrivial": 300, "cls:variant:one": 500, "cls:variant:in": 300, "cls:variant:contains": 300,
-            "cls:variant:notin": 300, "cls:variant:notcontains": 200, "cls:all_empty": 30, "cls:scalar": 100,
+            "cls:variant:notin": 300, "cls:variant:notcontains": 200, "cls:variant:or_in": 150, "cls:variant:not_and_in": 150,
+            "cls:variant:and_in": 150, "cls:two_level_concatenate": 300, "cls:all_empty": 30, "cls:scalar": 100,
             "re:Concatenate(@.*)?\\.enter": 2000}
 
 
@@ -40,16 +41,31 @@ def cases(spec, ctx):
                 p["items"] = []
         order = list(range(5))
         rng.shuffle(order)
-        yield {"world": w, "variant": rng.choice(["one", "one", "in", "contains", "notin", "notcontains"]), "order": order,
-               "scalar": rng.random() < 0.1, "caching": rng.random() < 0.7}
+        case = {"world": w, "variant": rng.choice(["one", "one", "in", "contains", "notin", "notcontains", "or_in", "not_and_in", "and_in"]),
+                "order": order, "scalar": rng.random() < 0.1, "caching": rng.random() < 0.7, "thr": rng.randint(1, 4)}
+        if rng.random() < 0.2:
+            # two levels: concatenate(flatten(p.items).subs); inner objects are shared between parents
+            case["nested"] = [[rng.randrange(5) for _ in range(rng.randint(0, 3))] for _ in range(5)]
+            case["scalar"] = False
+            case["variant"] = rng.choice(["one", "one", "in", "notin"])
+        yield case
 
 
 def check_case(case, ctx):
-    from entity_query_language import symbolic_mode, an, entity, let, in_, contains, not_
-    from entity_query_language.entity import concatenate
+    from entity_query_language import symbolic_mode, an, entity, let, in_, contains, not_, or_, and_
+    from entity_query_language.entity import concatenate, flatten
     from entity_query_language.cache_data import enable_caching, disable_caching
     es, ps = build_world(case["world"])
-    flat = [p.one for p in ps] if case["scalar"] else [x for p in ps for x in p.items]
+    if case.get("nested"):
+        from .c16 import E as _E
+        subs_pool = [_E(100 + i) for i in range(5)]
+        for e_, idxs in zip(es, case["nested"]):
+            e_.subs = [subs_pool[i] for i in idxs]
+        flat = [s_ for p in ps for x in p.items for s_ in x.subs]
+        es = subs_pool          # the outer variable and the labels range over the second-level objects
+        ctx.cls("cls:two_level_concatenate")
+    else:
+        flat = [p.one for p in ps] if case["scalar"] else [x for p in ps for x in p.items]
     dom = [es[i] for i in case["order"]]
     v = case["variant"]
     ctx.cls("cls:variant:" + v)
@@ -62,13 +78,20 @@ def check_case(case, ctx):
     try:
         with symbolic_mode():
             p = let(Par, ps)
-            allv = concatenate(p.one) if case["scalar"] else concatenate(p.items)
+            if case.get("nested"):
+                allv = concatenate(flatten(p.items).subs)
+            else:
+                allv = concatenate(p.one) if case["scalar"] else concatenate(p.items)
+            thr = case.get("thr", 2)
             if v == "one":
                 q = an(entity(allv))
             else:
                 d = let(E, dom)
                 cond = {"in": lambda: in_(d, allv), "contains": lambda: contains(allv, d), "notin": lambda: not_(in_(d, allv)),
-                        "notcontains": lambda: not_(contains(allv, d))}[v]()
+                        "notcontains": lambda: not_(contains(allv, d)),
+                        "or_in": lambda: or_(in_(d, allv), d.n == thr),
+                        "not_and_in": lambda: not_(and_(d.n > thr, in_(d, allv))),
+                        "and_in": lambda: and_(d.n > thr, in_(d, allv))}[v]()
                 q = an(entity(d, cond))
         snapshot = [list(p_.items) for p_ in ps]
         try:
@@ -76,7 +99,8 @@ def check_case(case, ctx):
             got2 = list(q.evaluate())       # the value is the same list on every evaluation
             with symbolic_mode():           # ... and for a fresh query over the same objects
                 p3 = let(Par, ps)
-                q3 = an(entity(concatenate(p3.one) if case["scalar"] else concatenate(p3.items)))
+                q3 = an(entity(concatenate(flatten(p3.items).subs) if case.get("nested") else
+                               concatenate(p3.one) if case["scalar"] else concatenate(p3.items)))
             got3 = list(q3.evaluate())
         except Exception as e:
             import traceback
@@ -91,7 +115,11 @@ def check_case(case, ctx):
         nontrivial = len(flat) >= 2 and len([p for p in ps if (case["scalar"] or p.items)]) >= 2
     else:
         member = lambda x: any(x is y for y in flat)
-        exp = [lab[id(x)] for x in dom if member(x) == (v in ("in", "contains"))]
+        thr = case.get("thr", 2)
+        sel = {"in": member, "contains": member, "notin": lambda x: not member(x), "notcontains": lambda x: not member(x),
+               "or_in": lambda x: member(x) or x.n == thr, "not_and_in": lambda x: not (x.n > thr and member(x)),
+               "and_in": lambda x: x.n > thr and member(x)}[v]
+        exp = [lab[id(x)] for x in dom if sel(x)]
         obs = [lab.get(id(x), f"?{type(x).__name__}") for x in got]
         nontrivial = 0 < len(exp) < len(dom)
     if nontrivial:
